@@ -80,6 +80,11 @@ for eps, tier in [("125", "quick"), ("150", "thorough")]:
     h("C17", "c17", f"c17_dedup_eps_n2_n3_e{eps}", "thorough", 1200,
       f"dedup_vertices_epsilon_n2 (batch path): n=3, D=2, coordinates in {{-1,0,1}}, eps={int(eps) / 100}: same laws",
       ["core::delaunay_triangulation::dedup_vertices_epsilon_n2", "core::util::deduplication::coords_within_epsilon"])
+h("C17", "c17", "c17_dedup_eps_quantized_fallback_first_n2", "quick", 1800,
+  "dedup_vertices_epsilon_quantized (batch path), n=2, D=2, eps=1e-10, first vertex NOT quantisable (|c| any double in "
+  "[1e9,1e300], either sign), second on {-1,0,1}^2: the fallback to the n^2 scan keeps both vertices",
+  ["core::delaunay_triangulation::dedup_vertices_epsilon_quantized", "core::delaunay_triangulation::quantize_coords",
+   "core::delaunay_triangulation::dedup_vertices_epsilon_n2"])
 h("C17", "c17", "c17_simplex_selection_n4", "thorough", 1800,
   "select_balanced_simplex_indices + reorder_vertices_for_simplex: n=4, D=2, coordinates in {-2..2}: indices distinct and in "
   "range, reordered list is a permutation starting with the selected vertices",
@@ -117,7 +122,9 @@ for form, tier, fns in [
         ("robust1", "thorough", ["geometry::robust_predicates::adaptive_tolerance_insphere (stage 1 of RobustKernel::in_sphere)",
                                  "geometry::robust_predicates::robust_orientation", "geometry::robust_predicates::interpret_insphere_determinant"])]:
     for c in range(9):
-        h("C12", "c12", f"c12_insphere2d_{form}_g1_c{c}", tier, 1800,
+        # quick tier: the origin-fixed cube of every formulation plus one corner cube of the fast kernel
+        ctier = "quick" if (c == 4 or (form == "fast" and c == 0)) else "thorough"
+        h("C12", "c12", f"c12_insphere2d_{form}_g1_c{c}", ctier, 2400,
           f"D=2 in-sphere ({form}): first simplex vertex fixed at {CUBE_PTS[c]}, all 3^6 = 729 choices of the other two vertices and "
           "the query in {-1,0,1}^2: result = sign of the exact in-circle determinant relative to the exact orientation; exactly "
           "degenerate simplex => Err or BOUNDARY (cube c of 9; the 9 cubes together cover the whole G=1 grid)", fns + LU4 + LU3)
@@ -158,6 +165,18 @@ h("C16", "c16", "c16_model_canonicalize_lattice_1d", "thorough", 3600,
   f"ToroidalModel::canonicalize_point_in_place<f64>, D=1, {LAT}: Ok and {WRAP}",
   ["topology::traits::global_topology_model::ToroidalModel::canonicalize_point_in_place",
    "topology::traits::global_topology_model::ToroidalModel::validate_configuration"])
+FAR = ("FAR lattice: period L = (7-bit significand) * 2^e, |e| <= 30; coordinate v = +-(12-bit significand) * 2^f, "
+       "-1000 <= f <= 300 (up to 2^330 periods outside the box), or +-0; f64::rem_euclid replaced by the exact integer "
+       "lattice model (square-and-multiply), valid for any exponent gap")
+FARLAW = "0 <= w < L; v in [0,L) => w = v; w congruent to the exact residue of v modulo L within 8 ulp(L) on the circle"
+h("C16", "c16", "c16_wrap_coord_far_lattice_1d", "thorough", 6000,
+  f"ToroidalSpace::wrap_coord<f64>, D=1, {FAR}: {FARLAW}", ["topology::spaces::toroidal::ToroidalSpace::wrap_coord"])
+h("C16", "c16", "c16_model_canonicalize_far_lattice_1d", "thorough", 6000,
+  f"ToroidalModel::canonicalize_point_in_place<f64>, D=1, {FAR}: {FARLAW}",
+  ["topology::traits::global_topology_model::ToroidalModel::canonicalize_point_in_place"])
+h("C16", "c16", "c16_canonicalize_point_far_lattice_2d", "thorough", 6000,
+  f"ToroidalSpace::canonicalize_point, D=2 (axis 0 symbolic), {FAR}: {FARLAW}",
+  ["topology::spaces::toroidal::<ToroidalSpace as TopologicalSpace>::canonicalize_point"])
 h("C16", "c16", "c16_builder_canonicalize_vertices_2d", "thorough", 6000,
   f"DelaunayTriangulationBuilder::canonicalize_vertices with a toroidal model, one vertex, D=2 (axis 0 symbolic), {LAT}: "
   f"UUID and user data preserved, {BOX}",
@@ -179,8 +198,9 @@ h("C16", "c16", "c16_wrap_coord_lattice_1d_f32", "quick", 1500,
   "ToroidalSpace::wrap_coord<f32>, D=1, period on the f64 lattice, f32 coordinate with 12-bit significand in 2^-100..2^38 or +-0: "
   "wrapped value (as f64) in [0, L), idempotent", ["topology::spaces::toroidal::ToroidalSpace::wrap_coord (T = f32)"])
 PROP_ASSUMPTIONS["C16"] = [
-    "f64::rem_euclid is replaced by the exact reference model harness/src/rem_model.rs (differential-tested natively against "
-    "std on 10^7 pairs by setup_cmd); Kani's own float-remainder model is unfaithful",
+    "f64::rem_euclid is replaced by exact reference models: harness/src/rem_model.rs (fma-based, quotient < 2^52) and "
+    "harness/src/rem_lattice.rs (integer square-and-multiply, any exponent gap, short significands); both are "
+    "differential-tested natively against std on 10^7 / 2*10^7 pairs by setup_cmd; Kani's own float-remainder model is unfaithful",
     "coordinates/periods with longer significands than the lattice, the certified-triangulation clause and the periodic "
     "image-point mode are outside the claim",
 ]
@@ -192,16 +212,24 @@ VOL = ["geometry::util::measures::simplex_volume"]
 VOLLAW = "Ok(v) => exact |det| != 0 and |v - |det|/D!| <= 1e-9 |det|/D!; exact det = 0 => Err"
 h("C18", "c18", "c18_volume_1d_i16", "quick", 300, f"simplex_volume D=1, endpoints any i16 integers: {VOLLAW}", VOL)
 h("C18", "c18", "c18_volume_2d_g2", "quick", 600, f"simplex_volume D=2, all 5^6 triples of points in [-2,2]^2: {VOLLAW}", VOL)
-h("C18", "c18", "c18_volume_2d_g8", "quick", 900, f"simplex_volume D=2, all 17^6 triples of points in [-8,8]^2: {VOLLAW}", VOL)
-h("C18", "c18", "c18_volume_2d_g32", "thorough", 3000, f"simplex_volume D=2, all 65^6 triples of points in [-32,32]^2: {VOLLAW}", VOL)
-h("C18", "c18", "c18_volume_2d_dyadic_g4", "thorough", 3000,
-  f"simplex_volume D=2 on dyadic lattices 2^-k*[-4,4]^2, k symbolic in 0..=12 (uniform-scaling law 4^-k): {VOLLAW}", VOL)
+h("C18", "c18", "c18_volume_2d_g3", "thorough", 3000, f"simplex_volume D=2, all 7^6 triples of points in [-3,3]^2: {VOLLAW}", VOL)
+h("C18", "c18", "c18_volume_2d_g4", "thorough", 6000, f"simplex_volume D=2, all 9^6 triples of points in [-4,4]^2: {VOLLAW}", VOL)
+h("C18", "c18", "c18_volume_2d_dyadic_g2", "thorough", 3000,
+  f"simplex_volume D=2 on dyadic lattices 2^-k*[-2,2]^2, k symbolic in 0..=12 (uniform-scaling law 4^-k): {VOLLAW}", VOL)
+GRAM = VOL + ["geometry::util::measures::simplex_volume_gram_matrix", "geometry::util::measures::gram_determinant_ldlt (la-stack LDLT)",
+              "geometry::util::measures::clamp_gram_determinant"]
+h("C18", "c18", "c18_volume_4d_degenerate_g2_fixed3", "thorough", 4000,
+  "simplex_volume D=4 (Gram/LDLT path): vertices 0..2 fixed on the unit frame, vertices 3 and 4 all integer points of [-2,2]^4, "
+  "restricted to EXACTLY degenerate simplices (exact 5x5 determinant = 0): result must be Err (verdict only, no value claim)", GRAM)
+h("C18", "c18", "c18_volume_4d_degenerate_g1_fixed1", "thorough", 8000,
+  "simplex_volume D=4 (Gram/LDLT path): vertex 0 at the origin, vertices 1..4 all points of {-1,0,1}^4, restricted to EXACTLY "
+  "degenerate simplices: result must be Err", GRAM)
 h("C18", "c18", "c18_volume_3d_g1", "quick", 1500, f"simplex_volume D=3, all 3^12 quadruples of points in {{-1,0,1}}^3: {VOLLAW}", VOL)
-h("C18", "c18", "c18_volume_3d_g2", "thorough", 6000, f"simplex_volume D=3, all 5^12 quadruples of points in [-2,2]^3: {VOLLAW}", VOL)
+h("C18", "c18", "c18_volume_3d_g2", "thorough", 10000, f"simplex_volume D=3, all 5^12 quadruples of points in [-2,2]^3: {VOLLAW}", VOL)
 h(["C18", "C19"], "c18", "c18_volume_2d_wrong_arity", "quick", 300,
   "simplex_volume D=2 with any slice length 0..=5: Ok iff exactly 3 points, never a panic", VOL)
 PROP_ASSUMPTIONS["C18"] = [
-    "volume only, D <= 3 (closed-form branches); facet measure, circumcentre, circumradius, inradius and the quality ratios "
+    "volume value claims only for D <= 3 (closed-form branches); for D = 4 only the degenerate => Err verdict; facet measure, circumcentre, circumradius, inradius and the quality ratios "
     "reach sqrt/hypot (Kani's sqrt model is unfaithful, hypot is FFI) and D >= 4 uses Gram/LDLT: outside the claim",
     "volumes below the library's documented absolute degeneracy threshold 1e-12 are not demanded",
 ]
@@ -241,6 +269,11 @@ h("C19", "c19", "c19_grid_keys_unrestricted", "quick", 900,
   "no panic; non-finite coordinates are never keyed",
   ["core::delaunay_triangulation::quantize_coords", "core::collections::spatial_hash_grid::HashGridIndex::key_for_coords"],
   kani_args=NOFLOATCHK)
+h("C19", "c19", "c19_simplex_selection_short_inputs", "quick", 1800,
+  "select_balanced_simplex_indices / reorder_vertices_for_simplex, D=2, every input length 0..=3 with UNRESTRICTED "
+  "coordinates: no panic; fewer than D+1 vertices => None",
+  ["core::delaunay_triangulation::select_balanced_simplex_indices", "core::delaunay_triangulation::reorder_vertices_for_simplex"],
+  kani_args=NOFLOATCHK)
 PROP_ASSUMPTIONS["C19"] = [
     "kernel level only: the walk step limit, flip budgets, cycle detection and the rebuild recursion guard live in Tds-walking "
     "loops that are outside reach (DESIGN.md section 0)",
@@ -260,7 +293,7 @@ for n, tier, to in [(3, "quick", 600), (4, "quick", 900), (5, "thorough", 3000)]
       "None iff the lists are not permutations of each other (core of the coherent-orientation check)",
       ["core::triangulation_data_structure::Tds::permutation_is_odd"])
 h("C05", "c05", "c05_permutation_parity_length_mismatch", "quick", 600,
-  "Tds::permutation_is_odd with lists of different lengths 0..=4: None", ["core::triangulation_data_structure::Tds::permutation_is_odd"])
+  "Tds::permutation_is_odd with lists of different lengths (3 vs 4, 4 vs 3, 0 vs 1, any ids): None; two empty lists: even", ["core::triangulation_data_structure::Tds::permutation_is_odd"])
 FK = ["core::facet::facet_key_from_vertices", "core::util::hashing::stable_hash_u64_slice"]
 h("C05", "c05", "c05_facet_key_injective_no_reuse", "quick", 1800,
   "facet_key_from_vertices on 2-key facets, slot-map keys version 1 (no slot reuse), index < 2^20: distinct sorted key tuples "
@@ -270,8 +303,10 @@ h("C05", "c05", "c05_facet_key_injective_with_reuse", "quick", 900,
   "injectivity -- KNOWN FINDING F2, a collision exists", FK)
 h("C05", "c05", "c05_facet_key_injective_no_reuse_3keys", "thorough", 6000,
   "facet_key_from_vertices on 3-key facets (D=3), version 1, index < 2^10: distinct sorted tuples have distinct keys", FK)
-h("C05", "c05", "c05_facet_key_order_independent_3keys", "quick", 1800,
-  "facet_key_from_vertices: 3 keys, index < 2^8, version in {1,3}: every permutation gives the same key; empty slice => 0", FK)
+h("C05", "c05", "c05_facet_key_order_independent_2keys", "quick", 1800,
+  "facet_key_from_vertices: 2 keys, index < 2^16, version in {1,3}: swapping the keys gives the same key; empty slice => 0", FK)
+h("C05", "c05", "c05_facet_key_order_independent_3keys", "thorough", 3600,
+  "facet_key_from_vertices: 3 keys, index < 16, version 1: every permutation gives the same key", FK)
 h(["C15"], "c05", "c05_edge_key_canonical", "quick", 300,
   "EdgeKey::new over ALL pairs of 64-bit key patterns: symmetric, endpoints ordered, endpoints are the inputs", ["core::edge::EdgeKey::new"])
 PROP_ASSUMPTIONS["C05"] = [
@@ -295,10 +330,13 @@ h("C09", "c09", "c09_grid_neighbourhood_doubles_window", "thorough", 6000,
 h("C09", "c09", "c09_quantized_neighbourhood_lattice", "quick", 1200,
   f"quantize_coords (batch epsilon dedup), eps = 1e-10 or 2^-m (m in 20..=40), same lattices: {NB}",
   ["core::delaunay_triangulation::quantize_coords"])
-h(["C09", "C19"], "c09", "c09_within_epsilon_laws_2d", "quick", 1800,
-  "coords_within_epsilon D=2 over UNRESTRICTED doubles: symmetric; NaN never within; distance exactly epsilon is not a "
-  "duplicate (strict <); identical finite coordinates are within any epsilon with eps^2 > 0",
+h(["C09", "C19"], "c09", "c09_within_epsilon_nan_strict_1d", "quick", 1800,
+  "coords_within_epsilon D=1 over UNRESTRICTED doubles: NaN never within; distance exactly epsilon is not a duplicate "
+  "(strict <); identical finite coordinates are within any epsilon with eps^2 > 0",
   ["core::util::deduplication::coords_within_epsilon"], kani_args=NOFLOATCHK)
+h("C09", "c09", "c09_within_epsilon_exact_grid_2d", "quick", 1800,
+  "coords_within_epsilon D=2, all pairs of integer points in [-4,4]^2, eps = n/4 for n in 1..=24: symmetric and equal to the "
+  "exact integer comparison 16 dist^2 < n^2", ["core::util::deduplication::coords_within_epsilon"])
 h(["C09", "C19"], "c09", "c09_equality_coherent_2d", "quick", 900,
   "coords_equal_exact <=> Vertex::partial_cmp == Equal <=> Vertex ==, vertex order total and antisymmetric, D=2, UNRESTRICTED "
   "doubles (signed zeros, NaN payloads, infinities)",
@@ -317,6 +355,11 @@ for nm, strat, tier, to in [("lex", "Lexicographic", "quick", 900), ("morton", "
       f"{strat} ordering, n=3 vertices, D=2, integer coordinates in [-2,2], EVERY permutation of the input list: the ordered "
       "coordinate sequence is identical; with pairwise distinct coordinates the vertex (UUID) sequence is identical",
       ORD + [f"core::delaunay_triangulation::order_vertices_{nm if nm != 'lex' else 'lexicographic'}"])
+for nm, strat, tier, to in [("lex", "Lexicographic", "quick", 900), ("morton", "Morton", "quick", 2400), ("hilbert", "Hilbert", "thorough", 6000)]:
+    h("C14", "c14", f"c14_order_independent_{nm}_cluster_n3", tier, to,
+      f"{strat} ordering on a CLUSTER: frame vertex (-2,2) plus two vertices with coordinates in {{0,1,2,3}}*2^-40 (same "
+      "Hilbert/Morton cell), D=2, every permutation of the input list: identical ordered sequence (coordinates; vertices when "
+      "the two cluster points differ)", ORD)
 h("C14", "c14", "c14_order_deterministic_n3", "quick", 2400,
   "Input/Lexicographic/Morton ordering applied twice to the same n=3 input (D=2, coordinates in [-2,2]): identical sequences", ORD)
 PROP_ASSUMPTIONS["C14"] = [
